@@ -55,7 +55,6 @@ func randomScenario(r *lib.Rand, big bool) Scenario {
 		maxSub = 4
 	}
 	firstOf := map[int]int{}
-	active := false          // broadcasting goroutines may still be running
 	prompt := map[int]bool{} // prompt readers that were not cancelled
 	addSub := func() {
 		if nsub < maxSub {
@@ -91,19 +90,10 @@ func randomScenario(r *lib.Rand, big bool) Scenario {
 		case 3:
 			st = append(st, settle(r.Range(1, 8)))
 		default:
-			// several goroutines at once only while a prompt reader shows the lock order to the
-			// model quickly (otherwise the state set of the simulation explodes)
-			ng := 1
-			hasPrompt := false
-			for _, p := range prompt {
-				hasPrompt = hasPrompt || p
-			}
-			if hasPrompt {
-				ng = r.Range(1, 3)
-			} else if active {
-				st = append(st, quiesce)
-			}
-			active = true
+			// (the lock order is observed through the hook broadcaster.broadcast.locked, so several
+			// goroutines may race also when no reader reads)
+			ng := r.Range(1, 3)
+			_ = prompt
 			for g := 1; g <= ng; g++ {
 				n := r.Range(1, 13)
 				if n > budget {
@@ -122,7 +112,6 @@ func randomScenario(r *lib.Rand, big bool) Scenario {
 		}
 		if r.Intn(3) == 0 {
 			st = append(st, quiesce)
-			active = false
 			if r.Intn(2) == 0 {
 				st = append(st, drain)
 			}
